@@ -38,7 +38,7 @@ def elw_of(ty):
     try:
         return et.size
     except Exception:
-        return max(1, et.bitwidth // 8)
+        return max(1, getattr(et, "bitwidth", 32) // 8)  # index elements: 4 bytes (RV32)
 
 
 def _mixed(static, dynamic, it):
